@@ -43,10 +43,9 @@ fn show(h: &[Call]) -> String {
 /// all histories of length <= max_len, observers named in order of
 /// subscription (renaming symmetry), nothing but subscribe/unsubscribe after
 /// the terminal (what a subject does with next after its terminal is not fixed)
-pub fn histories(max_len: usize, max_obs: usize) -> Vec<Vec<Call>> {
-  fn rec(cur: &mut Vec<Call>, n_sub: usize, unsubbed: &mut Vec<u8>, terminated: u8, max_len: usize, max_obs: usize, out: &mut Vec<Vec<Call>>) {
-    if !cur.is_empty() {
-      out.push(cur.clone());
+fn rec(cur: &mut Vec<Call>, n_sub: usize, unsubbed: &mut Vec<u8>, terminated: u8, max_len: usize, max_obs: usize, emit_from: usize, out: &mut dyn FnMut(&[Call])) {
+    if cur.len() > emit_from {
+      out(cur);
     }
     if cur.len() >= max_len {
       return;
@@ -54,7 +53,7 @@ pub fn histories(max_len: usize, max_obs: usize) -> Vec<Vec<Call>> {
     if n_sub < max_obs {
       cur.push(Call::Sub(n_sub));
       unsubbed.push(0);
-      rec(cur, n_sub + 1, unsubbed, terminated, max_len, max_obs, out);
+      rec(cur, n_sub + 1, unsubbed, terminated, max_len, max_obs, emit_from, out);
       unsubbed.pop();
       cur.pop();
     }
@@ -63,7 +62,7 @@ pub fn histories(max_len: usize, max_obs: usize) -> Vec<Vec<Call>> {
       if unsubbed[i] < 2 {
         cur.push(Call::Unsub(i));
         unsubbed[i] += 1;
-        rec(cur, n_sub, unsubbed, terminated, max_len, max_obs, out);
+        rec(cur, n_sub, unsubbed, terminated, max_len, max_obs, emit_from, out);
         unsubbed[i] -= 1;
         cur.pop();
       }
@@ -72,14 +71,14 @@ pub fn histories(max_len: usize, max_obs: usize) -> Vec<Vec<Call>> {
       // one call a well-behaved caller would not make: next / a second terminal after the terminal
       for c in [Call::Next(1), Call::Error, Call::Complete] {
         cur.push(c);
-        rec(cur, n_sub, unsubbed, 2, max_len, max_obs, out);
+        rec(cur, n_sub, unsubbed, 2, max_len, max_obs, emit_from, out);
         cur.pop();
       }
     }
     if terminated == 0 {
       for v in [1, 2] {
         cur.push(Call::Next(v));
-        rec(cur, n_sub, unsubbed, 0, max_len, max_obs, out);
+        rec(cur, n_sub, unsubbed, 0, max_len, max_obs, emit_from, out);
         cur.pop();
       }
       // a subscriber joins from inside another observer's callback, i.e. while the item is being delivered
@@ -88,7 +87,7 @@ pub fn histories(max_len: usize, max_obs: usize) -> Vec<Vec<Call>> {
           if unsubbed[o] == 0 {
             cur.push(Call::NextNested(1, o, n_sub));
             unsubbed.push(0);
-            rec(cur, n_sub + 1, unsubbed, 0, max_len, max_obs, out);
+            rec(cur, n_sub + 1, unsubbed, 0, max_len, max_obs, emit_from, out);
             unsubbed.pop();
             cur.pop();
           }
@@ -96,7 +95,7 @@ pub fn histories(max_len: usize, max_obs: usize) -> Vec<Vec<Call>> {
       }
       for t in [Call::Error, Call::Complete] {
         cur.push(t);
-        rec(cur, n_sub, unsubbed, 1, max_len, max_obs, out);
+        rec(cur, n_sub, unsubbed, 1, max_len, max_obs, emit_from, out);
         cur.pop();
       }
       // a subscriber joins from inside another observer's terminal callback
@@ -106,7 +105,7 @@ pub fn histories(max_len: usize, max_obs: usize) -> Vec<Vec<Call>> {
             for e in [true, false] {
               cur.push(Call::TermNested(e, o, n_sub));
               unsubbed.push(0);
-              rec(cur, n_sub + 1, unsubbed, 1, max_len, max_obs, out);
+              rec(cur, n_sub + 1, unsubbed, 1, max_len, max_obs, emit_from, out);
               unsubbed.pop();
               cur.pop();
             }
@@ -115,9 +114,45 @@ pub fn histories(max_len: usize, max_obs: usize) -> Vec<Vec<Call>> {
       }
     }
   }
+
+/// every history of length 1..=max_len (stored)
+pub fn histories(max_len: usize, max_obs: usize) -> Vec<Vec<Call>> {
   let mut out = vec![];
-  rec(&mut vec![], 0, &mut vec![], 0, max_len, max_obs, &mut out);
+  rec(&mut vec![], 0, &mut vec![], 0, max_len, max_obs, 0, &mut |h| out.push(h.to_vec()));
   out
+}
+
+/// every proper extension of `prefix` up to max_len, streamed to `sink`
+pub fn extensions(prefix: &[Call], max_len: usize, max_obs: usize, sink: &mut dyn FnMut(&[Call])) {
+  let mut n_sub = 0;
+  let mut unsubbed: Vec<u8> = vec![];
+  let mut terminated = 0u8;
+  for c in prefix {
+    match c {
+      Call::Sub(_) => {
+        n_sub += 1;
+        unsubbed.push(0);
+      }
+      Call::NextNested(..) => {
+        n_sub += 1;
+        unsubbed.push(0);
+      }
+      Call::TermNested(..) => {
+        n_sub += 1;
+        unsubbed.push(0);
+        terminated = 1;
+      }
+      Call::Unsub(i) => unsubbed[*i] += 1,
+      Call::Next(_) => {
+        if terminated >= 1 {
+          terminated = 2
+        }
+      }
+      Call::Error | Call::Complete => terminated = if terminated == 0 { 1 } else { 2 },
+    }
+  }
+  let mut cur = prefix.to_vec();
+  rec(&mut cur, n_sub, &mut unsubbed, terminated, max_len, max_obs, prefix.len(), sink);
 }
 
 #[derive(Clone, Debug, PartialEq)]
@@ -480,6 +515,13 @@ fn run_real(kind: SubjKind, via_map: Attach, shared: bool, h: &[Call]) -> RealOu
       }
       counts.lock().unwrap().push(sbj.observer_count());
     }
+    // end every subscription that is still live: a live subscription legitimately keeps its
+    // pipeline alive (subscriber <-> controller), and hundreds of millions of them add up
+    let rest: Vec<Subscription<'static>> = subs.lock().unwrap().iter().flatten().cloned().collect();
+    for s in rest {
+      s.unsubscribe();
+    }
+    subs.lock().unwrap().clear();
   }));
   set_monitor_mode(false);
   let fault = match r {
@@ -504,7 +546,12 @@ pub fn check(tier: &str) -> Report {
     "reference = four state machines (live-observer list + stored history) of DESIGN.md Appendix A; permissive where the statement is silent (§6: plain/async subject with a subscriber arriving after the terminal; AsyncSubject observer that joined after the last push)".into(),
     "calls after the terminal other than subscribe/unsubscribe are not enumerated (not fixed by the statement)".into(),
   ];
-  let hs = Arc::new(histories(if th { 9 } else { 7 }, 3));
+  // streamed: the histories up to length P are the work items; the longer ones are generated, run and
+  // dropped one at a time as extensions of the items of length P (nothing but the items is ever stored)
+  let max_len = if th { 9 } else { 7 };
+  const P: usize = 5;
+  let hs = Arc::new(histories(max_len.min(P), 3));
+  let total = AtomicUsize::new(0);
   let next = AtomicUsize::new(0);
   let kinds = [SubjKind::Plain, SubjKind::Behavior, SubjKind::Replay, SubjKind::Async];
   let findings: Mutex<BTreeMap<String, (String, u64)>> = Mutex::new(BTreeMap::new());
@@ -519,7 +566,8 @@ pub fn check(tier: &str) -> Report {
           if i >= hs.len() {
             break;
           }
-          let h = &hs[i];
+          let mut process = |h: &[Call]| {
+          total.fetch_add(1, Ordering::Relaxed);
           for kind in kinds {
             for via_map in [Attach::Direct, Attach::Map, Attach::Take1] {
               let (exp, counts, p) = reference(kind, via_map, h);
@@ -568,6 +616,12 @@ pub fn check(tier: &str) -> Report {
               }
             }
           }
+          };
+          let h = hs[i].clone();
+          process(&h);
+          if h.len() == P && max_len > P {
+            extensions(&h, max_len, 3, &mut |e| process(e));
+          }
         }
         let mut g = findings.lock().unwrap();
         for (k, v) in local {
@@ -591,11 +645,11 @@ pub fn check(tier: &str) -> Report {
   }
   r.samples.push(s(format!("history: [{}]", show(&hs[hs.len() / 2]))));
   r.samples.push(s(format!("history: [{}]", show(&hs[hs.len() - 1]))));
-  r.extra.push(("histories".into(), J::I(hs.len() as i64)));
+  r.extra.push(("histories".into(), J::I(total.load(Ordering::Relaxed) as i64)));
   r.extra.push(("subject_types_x_attachment".into(), J::I(24)));
   r.extra.push(("nontrivial_runs".into(), J::I(nontriv as i64)));
   r.extra.push(("permissive_cases".into(), J::I(perm as i64)));
   r.extra.push(("explanation".into(), s("states = nodes of the call-sequence tree visited (one per call of every run + the initial state); transitions = calls executed on a fresh real subject; every run is compared stepwise and per observer with the reference state machine")));
-  println!("  histories={} runs={} calls={} permissive={}", hs.len(), runs, steps, perm);
+  println!("  histories={} runs={} calls={} permissive={}", total.load(Ordering::Relaxed), runs, steps, perm);
   r
 }
